@@ -131,7 +131,8 @@ def traits_of(spec, label, gamma=False):
 
 
 def index_of(spec, label):
-    return LABEL_INDEX["P:" + label[:-2]] if spec and spec.get("pattern") else LABEL_INDEX[label]
+    base = LABEL_INDEX["P:" + label[:-2]] if spec and spec.get("pattern") else LABEL_INDEX[label]
+    return base + 100 * (spec.get("variant", 0) if spec else 0)  # a variant holds the same labels with different numbers
 
 
 # name -> spec. ``kinds`` data held; ``n``/``g`` neutron/gamma structure keys; labels in file order.
@@ -184,6 +185,18 @@ MACRO_MEMBERS["pat3"] = [
     {"name": "p3iso", "kinds": ["ISOTXS"], "n": "A3", "labels": PATTERN_LABELS, "pattern": True},
     {"name": "p3gam", "kinds": ["GAMISO"], "g": "A3", "labels": PATTERN_LABELS, "pattern": True},
 ]
+# macroscopic history search: a library that starts with half of the pattern nuclides and can grow by the
+# other half, and a second library ("variant") holding the same labels with different data
+HIST_FAMILIES = {}
+for _fam, _n, _g in (("h2", "A2", "A2"), ("h3", "A3", "A2")):
+    _mem = {}
+    for _half, _labels in (("a", PATTERN_LABELS[:4]), ("b", PATTERN_LABELS[4:])):
+        for _v in (0, 1):
+            _name = "%s%s%s" % (_fam, _half, "v" if _v else "")
+            _mem[(_half, _v)] = _name
+            MACRO_MEMBERS.setdefault("_hist", []).append({"name": _name, "kinds": ["ISOTXS", "GAMISO", "PMATRX"], "n": _n, "g": _g, "labels": list(_labels), "pattern": True, "variant": _v})
+    HIST_FAMILIES[_fam] = _mem
+HIST_DELETE_ORDER = ["FE54AA", "CR52AA", "U235AA"]
 FIXTURES = {
     "ISOAA": ("ISOTXS", "ISOAA"),
     "ISOAB": ("ISOTXS", "ISOAB"),
